@@ -40,6 +40,26 @@ CHECKS["C03"] = {
     "note": "Trusted: Coq kernel + vm_compute; Flocq 4.1 as the definition of IEEE-754; gorgonia's elementwise kernels are modelled by Model/Scalar.v and validated by sampling only; harness and driver.",
     "technique": "Coq proof (binary-op model = ONNX broadcast formula) + bit-exact Flocq/wrap arithmetic correspondence check judged in Coq",
 }
+CHECKS["C01"] = {
+    "text": "Theorems (axiom-free; any tensor type, attribute type, operator semantics, node list -- no topological-order or SSA hypothesis): a successful Run of the model of model.go returns exactly the declared outputs, in order, each the non-nil demand-driven value of its name (value = result j of the latest node listing the name at position j applied to the values of its input names, \"\" = absent); the environment after the node loop holds that value under every name; initial bindings are the ones the property describes (supplied declared input overrides its initializer); Run fails exactly when validation fails, a node fails (its error reported) or a declared output is unbound/nil; never panics unless an operator does; positional binding (values invariant under consistent renaming). Node isolation is by construction of the model (operator semantics is a function of the node's own type, attributes and inputs) + C15's registry theorem + the freshness obligation. Tie: seeded random DAGs over symbolic hash-valued operators installed through the exported GetOperator field, marshalled and loaded with NewModelFromBytes, every intermediate declared as an output; judged in Coq against S and M.",
+    "note": "Trusted: Coq kernel + vm_compute; harness (symbolic operators, graph printer); Go map iteration order is abstracted (later duplicate key wins). The real registry's freshness is C15's obligation.",
+    "technique": "Coq proof (Run model = demand-driven dataflow semantics) + symbolic-operator DAG correspondence check judged in Coq",
+}
+CHECKS["C12"] = {
+    "text": "Theorems (axiom-free): for EVERY TensorProto outside one known-finding class the model of TensorFromProto (data_type switch, typed-field-else-raw, fixed-width little-endian read loops with buffer and element size kept apart, narrowing conversions, dims and element-count check; as repaired by five fix: commits) returns exactly what the specification written from the ONNX TensorProto documentation prescribes: the declared shape, element type and values bit for bit, or an error (c12_model_refines_spec); it never panics and never returns a payload whose length contradicts the shape; the readers invert the little-endian encoder for every width and length; partial trailing elements are refused; the uint64 reader as first written never decoded anything. Tie: generated protos (11 types x typed/raw x rank 0..4 x bit patterns incl. NaN payloads; perturbed lengths and dims; all other type codes x every field) through onnx.TensorFromProto and through NewModelFromBytes+Run, compared bit for bit in Coq.",
+    "note": "Trusted: Coq kernel + vm_compute; bytes.Reader/binary.LittleEndian/tensor.New modelled; harness and driver. Known finding: data_type UNDEFINED with a populated typed field is loaded (pinned by the repository's own TestConstantOfShape fixture).",
+    "technique": "Coq proof (decoder model refines ONNX TensorProto spec; reader/encoder round trip) + bit-exact correspondence check judged in Coq",
+}
+CHECKS["C13"] = {
+    "text": "Theorems (axiom-free): the model of validateShapes accepts a supplied set iff every declared input carrying a shape is an initializer or is supplied with the declared rank and every fixed dimension equal (dynamic dimensions accept any size; extra tensors ignored); a rejected Run is the shape error reported before any node runs. Tie: seeded random signatures (1..3 inputs, rank 1..4, fixed/symbolic/unspecified dims, initializer-shadowed inputs) x supplied sets (exact, missing, extra, swapped, rank +-1, axis off by one) run through NewModelFromBytes + Run with symbolic operators, accept/reject and outputs judged in Coq against S (acceptance predicate in the property's words) and M; introspection methods (InputNames/InputShapes/InputDimSize) compared with the declaration and supplied tensors re-read after rejected Runs (decided in Go).",
+    "note": "Trusted: Coq kernel + vm_compute; harness; declared inputs of rank 0 or without shape information are outside the property's quantifier and are not validated by the code.",
+    "technique": "Coq proof (validateShapes model = acceptance predicate) + signature/feed correspondence check judged in Coq",
+}
+CHECKS["C18"] = {
+    "text": "PARTIAL by nature (the protobuf wire parser is third party and not modelled). Theorems (axiom-free) over the parsed structure: load never panics for any structure (rests on C12's decoder theorem); whatever loads has an implemented version as its highest import (maximum over all domains, 0 if none); otherwise THE unsupported-opset error provided the initializers decode; a graph with a node of unregistered type never completes and fails with the unsupported-operator error once the earlier nodes succeed. Obligation re-proved on every run over the opset table regenerated from /repo: supported_opsets = [13]. Tie: generated structures (initializers from C12's generator incl. malformed ones x opset import lists) through NewModelFromBytes judged in Coq against S and M. Explored, not proved: NewModelFromBytes under recover() on every truncation of the sample models, bit-flip/splice mutants, arbitrary bytes, structured mutants (a panic is a violation); real graphs with unregistered operator types through the real registry must fail with ErrUnsupportedOperator.",
+    "note": "Trusted: Coq kernel + vm_compute; opset table translator (probes ResolveOperatorGetter over -2..40); harness; proto.Unmarshal unmodelled.",
+    "technique": "Coq proof over the parsed-structure load model + regenerated opset table + byte-level fuzzing under recover() (exploration)",
+}
 
 _PENDING = "check under construction in this round; not yet claimed"
-NOT_APPLICABLE = {p: _PENDING for p in ["C01", "C02", "C04", "C05", "C06", "C09", "C10", "C11", "C12", "C13", "C16", "C17", "C18"]}
+NOT_APPLICABLE = {p: _PENDING for p in ["C02", "C04", "C05", "C06", "C09", "C10", "C11", "C16", "C17"]}
